@@ -189,6 +189,13 @@ def run_case(a):
                 argv = [drv, "build"]
             if path in ("cli", "cli-rel", "cli-rel-deep") and forced_later and step >= 1:
                 argv.append("--force")
+            if path in ("cli", "cli-rel", "cli-config", "cli-flags-over-config") and idx % 4 == 1 and step == steps - 1:
+                # the last run of the sequence fails part-way: a file-size limit of 1 KiB cuts the first larger write short (whichever
+                # file that is). A failed run, too, has only the tool's own files to touch
+                if "--force" not in argv:
+                    argv.append("--force")
+                argv = ["bash", "-c", 'trap "" XFSZ; ulimit -f 1; exec "$@"', "bash"] + argv
+                st["runs_cut_short"] = st.get("runs_cut_short", 0) + 1
             before = fsmon.snapshot(root)
             st["paths_snapshotted"] += len(before)
             r, ev = fsmon.run_traced(argv, cwd=cwd, hash_seed=seed % 500 + step)
